@@ -387,20 +387,27 @@ def zoo (g m : String) : Option Handler :=
   else if m = "slow" then some ⟨.request, .slow⟩
   else if m = "late" then some ⟨.request, .late⟩
   else if m = "nan" then some ⟨.request, .unser⟩
+  -- login / loginw: the handler binds a user id to the session and pushes the session to the front
+  -- (without / with waiting for the push to be acknowledged) before it completes like `echo`; the
+  -- bound id is stamped on later envelopes but nothing the client sees depends on it
+  else if m = "login" ∨ m = "loginw" then some ⟨.request, .ok⟩
   else if m = "tell" then some ⟨.notify, .ok⟩
   else none
 
-/-- front `gate-1`; backs `chat-1`, `chat-2` (type chat, routed by the session key `chatid`),
-`hall-1` (type hall, no route rule: `defaultRoute` picks the first working instance); `chat-9` is
-listed in the directory but no actor lives behind its PID -/
-def tieCfg : Cfg where
+/-- node n1 (always Working): front `gate-1`, `chat-1`, `hall-1`, and `chat-9` which is listed in the
+directory but has no actor behind its PID; node n2 (its state changes during a run, `n2working`):
+`chat-2`, `hall-2`.  Type chat is routed by the session key `chatid` — the rule names the instance and
+`RoutePID` resolves ANY cluster member's service by name, whatever the state of its node.  Type hall has
+no route rule: `defaultRoute` takes the first instance of the WORKING list (n2's services come first
+in the member order). -/
+def tieCfg (n2working : Bool) : Cfg where
   frontName := "gate-1"
   frontType := "gate"
   handlers := fun t g m => if t = "gate" ∨ t = "chat" ∨ t = "hall" then zoo g m else none
   dir := fun n =>
     if n = "gate-1" then some ⟨"gate", true⟩
     else if n = "chat-1" ∨ n = "chat-2" then some ⟨"chat", true⟩
-    else if n = "hall-1" then some ⟨"hall", true⟩
+    else if n = "hall-1" ∨ n = "hall-2" then some ⟨"hall", true⟩
     else if n = "chat-9" then some ⟨"chat", false⟩
     else none
   route := fun t s =>
@@ -408,7 +415,7 @@ def tieCfg : Cfg where
       (match s.key with
        | some k => if k = "" then "no_service" else k
        | none => "no_service")
-    else if t = "hall" then "hall-1"
+    else if t = "hall" then (if n2working then "hall-2" else "hall-1")
     else if t = "gate" then "gate-1"
     else "no_service"
 
